@@ -131,7 +131,9 @@ func walkSDRs(ctx context.Context, s Session) (SDRRepository, error) {
 				return nil, fmt.Errorf("packet is missing Full Sensor Record layer: %v",
 					getSDRCmd)
 			}
-			repo[getSDRCmd.Req.RecordID] = fsrLayer.(*ipmi.FullSensorRecord)
+			// index by the record's own ID from its header: the first record
+			// is requested as 0x0000 whatever its real ID is
+			repo[header.ID] = fsrLayer.(*ipmi.FullSensorRecord)
 		}
 
 		getSDRCmd.Req.RecordID = getSDRCmd.Rsp.Next
